@@ -17,7 +17,8 @@ condition (the parameter is bound to KEEP_RUNNING at the only call site).  (2c) 
 (6) Every loop reachable from a thread entry is classified from the CFG and the provenance of its exit conditions: iteration over a finite collection/range,
 computation over in-memory values, or dependent on a socket / queue / random source; loops of the last kind must load the flag in every iteration (or carry an
 audited reason); since the K1 repair process_events handles one batch per readiness event and has no input-driven inner loop.
-A response leaves the process in a single send_to of a completely built buffer and the flag is never read inside send_responses, so every response emitted before exit is complete.
+A response leaves the process in a single send_to of a completely built buffer and the flag is never read inside send_responses, so every response emitted before exit is complete;
+the responder typestate (reset -> add* -> send_responses, over every function including the code after the worker loop) shows that no response is built from a stale batch on the way out.
 """
 NOT_DECIDED = "time-to-exit as a duration (timing); OS signal delivery"
 TRUSTED = ["ctrlc runs the handler on SIGINT (and SIGTERM/SIGHUP with the termination feature)", "mio Poll::poll honours its timeout"]
@@ -331,6 +332,8 @@ def run(ctx):
                   % (fp.split("::")[-1], "; ".join(b[1] for b in bad[:3])), fn.loc(bad[0][0]) if bad and bad[0][0] is not None else ctx.loc(fn))
     ctx.floor("clean-exit", npost, 2, "thread loops whose exit path was examined (worker, reporter)")
     ctx.extra["loops_classified"] = kinds
+    # responses emitted on the way out are complete AND valid: nothing collects or sends from a responder that was not reset since its last send
+    sm.responder_typestate(ctx, W, "complete-responses")
     ctx.floor("flag-in-loop", nloops, 12, "loops reachable from the thread entries")
     ctx.floor("flag-in-loop-flagged", kinds.get("flag", 0), 2, "loops that read the shutdown flag (worker loop, reporter loop)")
 
